@@ -311,6 +311,7 @@ type replayOut struct {
 	Observed  map[string]string `json:"observed"`
 	Panic     string            `json:"panic"`
 	Tags      []string          `json:"tags"`
+	Notes     map[string]string `json:"notes"`
 }
 
 func runReplay(bin, witnessPath string) (*replayOut, string, error) {
